@@ -5,10 +5,10 @@
 
 enum SrcFamily {
   SRC_SILENCE = 0, SRC_DC, SRC_TONES, SRC_SWEEP, SRC_VOICED, SRC_NOISE, SRC_CLICKS, SRC_SQUARE,
-  SRC_STEREO, SRC_NONFINITE, SRC_DENORMAL, SRC_DITHER, SRC_MUSIC, SRC_STEADYVOICED, SRC_ANTIPHASE, SRC_NFAM
+  SRC_STEREO, SRC_NONFINITE, SRC_DENORMAL, SRC_DITHER, SRC_MUSIC, SRC_STEADYVOICED, SRC_ANTIPHASE, SRC_BURSTYSTEREO, SRC_NFAM
 };
 static const char *const kSrcName[] = {"silence", "dc", "tones", "sweep", "voiced", "noise", "clicks", "square",
-                                       "stereo", "nonfinite", "denormal", "dither", "music", "steadyvoiced", "antiphase"};
+                                       "stereo", "nonfinite", "denormal", "dither", "music", "steadyvoiced", "antiphase", "burstystereo"};
 
 struct Source {
   int fam = SRC_SILENCE;
@@ -101,6 +101,13 @@ static inline float src_sample(const Source &s, int fs, int ch, int64_t n) {
       double ph = TWO_PI * pitch * t, v = 0;
       for (int h = 1; h <= 12; h++) v += sin(h * ph + 0.3 * h * h) / h;
       return (float)((ch & 1 ? -1.0 : 1.0) * A * v / 2.5);
+    }
+    case SRC_BURSTYSTEREO: {
+      // channels that have nothing in common: independent noise with a sharp 10:1 level modulation (62.5 ms period at 48 kHz) plus a
+      // steady tone of a different frequency per channel - transients and inter-channel decorrelation at the same time
+      double env = (n % (fs / 16)) < (fs / 160) ? 1.0 : 0.15;
+      double v = env * noise_at(s.seed, n, ch) + 0.5 * sin(TWO_PI * (f0 * (1.0 + 0.29 * ch)) * t);
+      return (float)(A * v / 1.5);
     }
     case SRC_MUSIC: {
       // chord with slow amplitude modulation + a little noise: keeps the music detector busy
